@@ -11,6 +11,11 @@ DELEGATES = {"register_mod_src", "deregister_mod_src", "mod_deregister"}      # 
 INIT_WRITERS = {"m_set_memhook"}                                               # documented: call before first use of the library
 
 
+READ_ONLY_CALLEES = {"fputs", "puts", "printf", "fprintf", "vprintf", "vfprintf", "strlen", "strcmp", "strncmp", "strcasecmp", "strncasecmp", "memcmp",
+                     "write", "fwrite", "getenv", "strstr", "strchr", "strrchr", "atoi", "strtol", "strtoul", "open", "fopen", "regcomp", "regexec"}
+WRITES_ARG0 = {"snprintf", "vsnprintf", "sprintf", "vsprintf", "memcpy", "memset", "memmove", "strcpy", "strncpy", "strcat", "strncat", "fgets"}
+
+
 def global_writes(P):
     """{(unit, func, name): [(event, how)]} for objects with static storage: direct stores and address-taken in a call."""
     out = {}
@@ -27,6 +32,20 @@ def global_writes(P):
                 if root is not None and root["k"] == "var" and root.get("vk") in ("global", "slocal"):
                     out.setdefault(root["name"], []).append((ev, "store"))
             if ev.kind == "call":
+                # an array with static storage handed (decayed, possibly with an offset) to a callee that may write through it
+                for i_, a in enumerate(ev.args):
+                    sa0 = strip(a)
+                    cand = sa0
+                    if sa0 is not None and sa0["k"] == "bin" and sa0["op"] in ("+", "-"):
+                        cand = strip(sa0["l"])
+                    if cand is not None and cand["k"] == "index":
+                        continue
+                    if cand is not None and cand["k"] == "var" and cand.get("vk") in ("global", "slocal") and "[" in (cand.get("ct") or cand.get("t") or "") \
+                            and "const" not in (cand.get("ct") or cand.get("t") or ""):
+                        cn = ev.callee or ""
+                        if cn in READ_ONLY_CALLEES or (cn in WRITES_ARG0 and i_ != 0):
+                            continue
+                        out.setdefault(cand["name"], []).append((ev, "array handed to %s" % (cn or S(ev.e["fn"]))))
                 for a in ev.args:
                     sa = strip(a)
                     if sa is not None and sa["k"] == "un" and sa["op"] == "&":
